@@ -202,7 +202,7 @@ def run_harness(ROOT, GOENV, scn, seed, n, flt=None, extra=None, timeout=1800, r
         env = dict(GOENV, GOMEMLIMIT="4GiB")
         env.update(env_extra or {})
         if race_out is not None:
-            env["GORACE"] = "halt_on_error=0"
+            env["GORACE"] = "halt_on_error=0 exitcode=0"
         p = subprocess.Popen(cmd, stdout=subprocess.PIPE, stderr=subprocess.PIPE, env=env)
         pending = None
         last_i = start - 1
@@ -213,7 +213,7 @@ def run_harness(ROOT, GOENV, scn, seed, n, flt=None, extra=None, timeout=1800, r
             out, err = p.communicate()
         if race_out is not None:
             race_out.extend(parse_race_reports(err.decode("utf-8", "replace"), repo))
-        for line in out.decode("utf-8", "replace").splitlines():
+        for line in out.decode("utf-8", "replace").split("\n"):
             if line.startswith("#begin "):
                 try:
                     pending = json.loads(line[7:])
@@ -258,7 +258,7 @@ def run_driver(LEAN, cases, timeout=1800):
     inp = "\n".join(json.dumps(c) for c in cases) + "\n"
     p = subprocess.run([drv], input=inp.encode(), stdout=subprocess.PIPE, stderr=subprocess.PIPE, timeout=timeout)
     outs = {}
-    for line in p.stdout.decode("utf-8", "replace").splitlines():
+    for line in p.stdout.decode("utf-8", "replace").split("\n"):
         try:
             o = json.loads(line)
         except ValueError:
@@ -366,6 +366,10 @@ def check(ROOT, REPO, LEAN, GOENV, pid, prop, tier, seed):
                                    "case": {"scn": "race", "scenario": sc["scn"], "filter": sc.get("filter"), "seed": seed, "n": n * boost, "env": sc.get("env"),
                                             "report": rp["text"]},
                                    "drv": None})
+            if len(cases) != n * boost:
+                issues.append({"scn": sc["scn"], "aspect": "driver", "kind": "impl-vs-model", "method": sc.get("filter"),
+                               "detail": "the harness returned %d cases of %d requested (a protocol line was lost)" % (len(cases), n * boost),
+                               "case": {"scn": sc["scn"], "filter": sc.get("filter"), "note": "case count"}, "drv": None})
             outs, drc, derr = run_driver(LEAN, cases)
             if drc != 0:
                 broken.append("driver rc=%d %s" % (drc, derr[-500:]))
@@ -509,7 +513,7 @@ def replay(ROOT, REPO, LEAN, GOENV, path):
                        stdout=subprocess.PIPE, stderr=subprocess.PIPE, env=GOENV)
     cases = []
     pending = None
-    for line in p.stdout.decode().splitlines():
+    for line in p.stdout.decode("utf-8", "replace").split("\n"):
         if line.startswith("#begin "):
             pending = json.loads(line[7:])
         elif line.startswith("{"):
